@@ -50,16 +50,21 @@ param_value_pattern = re.compile(br'\=([\x21-\x3C\x3E-\x7F]+)')
 
 def find_outside_quotes(haystack, needle, start_i=0, quotes=b'"'):
     quoted = None
+    escaped = False
     h_len = len(haystack)
     n_len = len(needle)
     for i in range(start_i, h_len-n_len+1):
-        if not quoted:
+        if escaped:
+            escaped = False
+        elif not quoted:
             if haystack[i:i+n_len] == needle:
                 return i
             for quote in quotes:
                 if haystack[i] == quote:
                     quoted = quote
                     break
+        elif haystack[i:i+1] == b'\\':
+            escaped = True
         elif haystack[i] == quoted:
             quoted = None
     return -1
